@@ -280,6 +280,59 @@ def gen_trace(r, typ=INT, nkeys=None, reuse=True, sorted_=False, max_items=None,
     return trace
 
 
+def gen_trace_scale(r, shape=None):
+    """Traces at SCALE (thresholds of data-type widths, buffer sizes and growth policies): one or two keys with
+    several hundred items; or hundreds of simultaneously live keys with a few items each; slot indices in the
+    hundreds / low thousands; a long key whose slot is reused afterwards.  Items cycle through a small range so
+    that groups, runs and windows repeat."""
+    shape = shape or r.choice(['long', 'long2', 'many', 'many_groups', 'long_reuse'])
+    ev = lambda v: ['i', v]
+    if shape in ('long', 'long2', 'long_reuse'):
+        nk = 1 if shape != 'long2' else 2
+        slots = r.sample([0, 1, 3, 130, 257, 300], nk)
+        n = r.choice([130, 260, 300, 520, 1030])
+        qs = []
+        for s in slots:
+            key = [s]
+            q = [['c', key]] + [['n', key, ev((i * 7 + s) % r.choice([5, 11, 300]))] for i in range(n)] + [['d', key]]
+            if shape == 'long_reuse':
+                q += [['c', key]] + [['n', key, ev(i % 4)] for i in range(r.choice([3, 140]))] + [['d', key]]
+            qs.append(q)
+        trace = []
+        while qs:
+            q = r.choice(qs)
+            for _ in range(r.choice([1, 3, 50])):
+                if q:
+                    trace.append(q.pop(0))
+            qs = [q for q in qs if q]
+        return trace
+    if shape == 'many':
+        nk = r.choice([70, 140, 270])
+        keys = [[s] for s in (r.sample(range(0, 320), nk) if r.random() < 0.5 else list(range(nk)))]
+        trace, made = [], []
+        wave = r.choice([1, 7, 16, nk])        # keys are created in waves, earlier keys receive items in between
+        rnd = 0
+        for a in range(0, nk, wave):
+            for k in keys[a:a + wave]:
+                trace.append(['c', k])
+                made.append(k)
+            for k in (made if wave >= 7 else made[-3:]):
+                trace.append(['n', k, ev((k[0] + rnd) % 9)])
+            rnd += 1
+        for rnd2 in range(r.choice([0, 1, 2])):
+            for k in keys:
+                trace.append(['n', k, ev((k[0] + rnd + rnd2) % 9)])
+        order = list(keys)
+        r.shuffle(order)
+        trace += [['d', k] for k in order]
+        return trace
+    # many_groups: one key, items with hundreds of distinct values (hundreds of groups / runs / distinct keys)
+    key = [r.choice([0, 2, 260])]
+    n = r.choice([150, 300, 600])
+    items = [ev(i if r.random() < 0.8 else r.randint(0, n)) for i in range(n)]
+    return [['c', key]] + [['n', key, x] for x in items] + [['d', key]]
+
+
 def lifetimes_of(trace):
     """[(key, [items])] in order of creation, from a well-formed trace"""
     open_, out = {}, []
